@@ -166,12 +166,12 @@ Qed.
 
 Lemma string_ok n st ln i :
   (nu st < n)%nat -> ch st <> 0 -> peeks st = [] ->
-  exists t st', (do (l, st1) <- read_string n st; finish (mkTok T_STRING l ln i) st1) = OK (t, st')
+  exists t st', (do (l, st1) <- read_string n st; finish (mkTokO T_STRING l ln i 2) st1) = OK (t, st')
                 /\ fresh_ok st t st'.
 Proof.
   intros Hn Hc Hp.
   destruct (read_string_ok n st Hn Hc) as (l & st1 & R & L & S). rewrite R. cbn [bind].
-  edestruct (finish_fresh (mkTok T_STRING l ln i) st st1) as (st' & F & K); eauto. ty.
+  edestruct (finish_fresh (mkTokO T_STRING l ln i 2) st st1) as (st' & F & K); eauto. ty.
 Qed.
 
 (* ---- the long string ---- *)
